@@ -15,8 +15,8 @@ def sh(cmd, cwd=None, env=None):
 
 def main():
     sid, idx, props = sys.argv[1], sys.argv[2], sys.argv[3:]
-    out = '/tmp/seed/out_%s' % sid
-    wt = '/tmp/seed/wt_%s' % sid
+    out = os.environ.get('SEED_OUT') or '/tmp/seed/out_%s' % sid
+    wt = os.environ.get('SEED_WT') or '/tmp/seed/wt_%s' % sid
     patch = '%s/patch%s.diff' % (out, idx)
     demo = '%s/demo%s.py' % (out, idx)
     note = '%s/note%s.txt' % (out, idx)
@@ -25,28 +25,31 @@ def main():
     if os.path.isdir(wt):
         sh('git checkout -- .', wt)
         rc0, o0 = sh('/venv/bin/python %s' % demo, wt, env)
-        rca, oa = sh('git apply %s' % patch, wt)
+        rca, oa = sh('git apply %s || git apply -3 %s' % (patch, patch), wt)
         rc1, o1 = sh('/venv/bin/python %s' % demo, wt, env)
         rct, ot = sh('/venv/bin/python -m pytest -q -p no:cacheprovider -x -n 8 tests 2>&1 | tail -2', wt)
         sh('git checkout -- .', wt)
         meta['confirm'] = {'demo_clean_rc': rc0, 'patch_applies': rca == 0, 'demo_patched_rc': rc1,
                            'demo_patched_output': o1[-600:], 'tests_with_patch': ot.strip()[-200:]}
         print('confirm:', meta['confirm']['demo_clean_rc'], meta['confirm']['demo_patched_rc'], meta['confirm']['tests_with_patch'])
-    rc, o = sh('git status --short', '/repo')
-    if o.strip():
-        print('REPO NOT CLEAN, abort'); return 2
-    rc, o = sh('git apply %s' % patch, '/repo')
+    # run the registered checks against the patched scratch worktree (VERIF_REPO), so that /repo itself —
+    # which concurrently running checks import — is never modified
+    rc, o = sh('git apply %s' % patch, wt)
     if rc != 0:
-        print('patch does not apply to /repo:', o); return 2
+        rc, o = sh('git apply -3 %s' % patch, wt)      # written against an earlier tree
+        if rc != 0 or 'with conflicts' in o:
+            print('patch does not apply:', o[-300:]); sh('git checkout -- .', wt); sh('git reset -q --hard', wt); return 2
+    env2 = dict(os.environ, VERIF_REPO=wt, VERIF_EVIDENCE_DIR='/tmp/seed/evidence')
     try:
         for p in props:
-            rc, o = sh('./vcheck run %s' % p, '/verif')
+            rc, o = sh('./vcheck run %s' % p, '/verif', env2)
             lines = [l for l in o.splitlines() if l.startswith(('VIOLATION', 'KNOWN-FINDING', 'MACHINERY', p))]
             print(p, 'rc=%d' % rc, ' | '.join(lines)[:400])
             meta['ran'].append({'check': p, 'exit': rc, 'lines': lines})
     finally:
-        sh('git checkout -- .', '/repo')
-    dst = '/verif/seeded/%s_%s' % (sid, idx)
+        sh('git checkout -- .', wt)
+        sh('git reset -q --hard', wt)
+    dst = '/verif/seeded/%s_%s' % (sid, os.environ.get('SEED_IDX') or idx)
     os.makedirs(dst, exist_ok=True)
     shutil.copy(patch, dst + '/patch.diff')
     shutil.copy(demo, dst + '/demo.py')
@@ -54,11 +57,6 @@ def main():
         meta['needs'] = open(note).read()
     meta['property'] = sid[:3]
     json.dump(meta, open(dst + '/meta.json', 'w'), indent=1)
-    # the clean tree must be quiet again
-    for p in props:
-        rc, o = sh('./vcheck run %s' % p, '/verif')
-        if rc != 0:
-            print('WARNING: check %s not quiet on clean tree after undo: rc=%d' % (p, rc))
     return 0
 
 sys.exit(main())
